@@ -77,8 +77,8 @@ def gen(rng, i, ctx):
         n = int(rng.integers(0, 2))
     slanted = (cls.endswith('slanted') or rng.random() < 0.2) and cls != 'line_outline'
     if cls == 'many_overlapping':
-        # more than a thousand regions that all overlap each other (a page of stacked stamps / table cells); one in eight, otherwise 20-60 of them
-        n = int(rng.choice([1050, 1200])) if (i // len(CLASSES)) % 8 == 0 else int(rng.integers(20, 60))
+        # more than a thousand regions that all overlap each other (a page of stacked stamps / table cells); one in 24, otherwise 20-60 of them
+        n = int(rng.choice([1050, 1200])) if (i // len(CLASSES)) % 24 == 0 else int(rng.integers(20, 60))
         slanted = False
     sp = spiral(int(rng.integers(40, 64))) if cls == 'spiral' else None
     if sp is not None:
